@@ -586,3 +586,105 @@ func verifHarness_C07_request_repeated_header_any_case() {
 	}
 	verifAssert(false, "witness")
 }
+
+// header lines with an EMPTY value ("Name:" and "Name: ") followed by another
+// header, by a framing header, or ending the head — differential against the
+// interpreted net/http.ReadRequest (header multimap, body, successor).
+func verifHarness_C07_request_empty_header_value() {
+	sp := ""
+	if verifChoose("space_after_colon", 2) == 1 {
+		sp = " "
+	}
+	v := verifBytes("value", 1)
+	verifAssume(verifVisible(v[0]))
+	body := verifBytes("body", 2)
+	var w []byte
+	form := verifChoose("form", 3)
+	switch form {
+	case 0: // followed by an ordinary header
+		w = []byte("POST /e HTTP/1.1\r\nHost: h\r\nX-E:" + sp + "\r\nX-N: ")
+		w = append(w, v[0])
+		w = append(w, "\r\nContent-Length: 2\r\n\r\n"...)
+	case 1: // followed by the framing header
+		w = []byte("POST /e HTTP/1.1\r\nHost: h\r\nX-N: ")
+		w = append(w, v[0])
+		w = append(w, ("\r\nX-E:" + sp + "\r\nContent-Length: 2\r\n\r\n")...)
+	case 2: // last header of the head
+		w = []byte("POST /e HTTP/1.1\r\nHost: h\r\nContent-Length: 2\r\nX-N: ")
+		w = append(w, v[0])
+		w = append(w, ("\r\nX-E:" + sp + "\r\n\r\n")...)
+	}
+	w = append(w, body...)
+	w = append(w, "GET /next HTTP/1.1\r\nHost: n\r\nX-First: f\r\n\r\n"...)
+	br := bufio.NewReader(bytes.NewReader(append([]byte(nil), w...)))
+	ref, err := http.ReadRequest(br)
+	if err != nil {
+		verifFail("reference-rejects-well-formed-message", "empty-header-value")
+		return
+	}
+	want := verifSnapshot(ref)
+	verifAssertD(len(want.header["X-E"]) == 1 && want.header["X-E"][0] == "" && len(want.header["X-N"]) == 1, "reference-multimap", "net/http")
+	e := verifHTTPEngine()
+	var seen []*verifSeenReq
+	e.Handler = http.HandlerFunc(func(rw http.ResponseWriter, r *http.Request) {
+		s := verifSnapshot(r)
+		s.header = r.Header.Clone()
+		seen = append(seen, s)
+	})
+	p := NewParser(&verifNetConn{failAt: -1}, e, NewServerProcessor(), false, nil)
+	perr := p.Parse(append([]byte(nil), w...))
+	verifAssertD(perr == nil, "well-formed-message-accepted", "empty-header-value")
+	verifAssertD(len(seen) == 2, "message-count", "empty-header-value")
+	if len(seen) >= 1 {
+		g := seen[0]
+		verifAssertD(len(g.header["X-E"]) == 1 && verifTrimOWS(g.header["X-E"][0]) == "", "header-multimap", "empty-value-kept-empty")
+		verifAssertD(len(g.header["X-N"]) == 1 && verifTrimOWS(g.header["X-N"][0]) == string(v), "header-multimap", "neighbour-of-empty-value")
+		verifAssertD(len(g.body) == 2 && verifEqBytes(g.body, body), "body-bytes", "empty-header-value")
+	}
+	if len(seen) == 2 {
+		verifAssertD(seen[1].uri == "/next" && len(seen[1].header["X-First"]) == 1 && seen[1].header["X-First"][0] == "f", "successor-parsed-from-message-boundary", "empty-header-value")
+	}
+	verifAssert(false, "witness")
+}
+
+// trailer values with inner spaces and empty trailer values, and a Connection
+// header that is a token list — differential against net/http.
+func verifHarness_C07_request_trailer_values_and_connection_tokens() {
+	tv := []string{"tv", "hello world", "a  b c", ""}[verifChoose("trailer_value", 4)]
+	connHdr := []string{"", "close", "keep-alive, close", "close, TE", "Keep-Alive", "TE, keep-alive"}[verifChoose("connection", 6)]
+	minor := verifChoose("minor", 2)
+	w := []byte("POST /t HTTP/1." + string(rune('0'+minor)) + "\r\nHost: h\r\n")
+	if connHdr != "" {
+		w = append(w, ("Connection: " + connHdr + "\r\n")...)
+	}
+	w = append(w, "Transfer-Encoding: chunked\r\nTrailer: X-T\r\n\r\n1\r\nz\r\n0\r\n"...)
+	w = append(w, ("X-T: " + tv + "\r\n\r\n")...)
+	if minor == 0 {
+		// (net/http ignores Transfer-Encoding in HTTP/1.0 requests: outside the agreement subset)
+		return
+	}
+	br := bufio.NewReader(bytes.NewReader(append([]byte(nil), w...)))
+	ref, err := http.ReadRequest(br)
+	if err != nil {
+		verifFail("reference-rejects-well-formed-message", "trailer-values")
+		return
+	}
+	want := verifSnapshot(ref)
+	e := verifHTTPEngine()
+	var seen []*verifSeenReq
+	e.Handler = http.HandlerFunc(func(rw http.ResponseWriter, r *http.Request) {
+		seen = append(seen, verifSnapshot(r))
+	})
+	p := NewParser(&verifNetConn{failAt: -1}, e, NewServerProcessor(), false, nil)
+	perr := p.Parse(append([]byte(nil), w...))
+	verifAssertD(perr == nil, "well-formed-message-accepted", "trailer-values")
+	verifAssertD(len(seen) == 1, "message-count", "trailer-values")
+	if len(seen) == 1 {
+		g := seen[0]
+		gt, wt := g.trailer["X-T"], want.trailer["X-T"]
+		verifAssertD(len(wt) == 1 && wt[0] == tv, "reference-trailer", "net/http")
+		verifAssertD(len(gt) == 1 && verifTrimOWS(gt[0]) == tv, "trailer", "value-with-spaces-or-empty")
+		verifAssertD(g.close == want.close, "connection-close-decision", "token-list")
+	}
+	verifAssert(false, "witness")
+}
